@@ -6,8 +6,11 @@
     enabled iff the module is loaded).  No critical section of the loader takes a second lock or blocks inside,
     so the interleavings of whole critical sections are exactly the lock orders of the real execution.
 
-    Configuration = [loads : label -> list label] (the load() statements of every module file, in order) and
-    [roots] (the package files BUILD.dawn, one goroutine each, see loadPackage).
+    Configuration = [loads : label -> list label] (the load() statements of every module file, in order),
+    [bad : label -> bool] (the module fails by itself: its file is missing or unreadable, does not parse, or its
+    code fails at run time; [loads] of a bad module are the load() statements executed before that point, none for
+    a file that cannot be read or parsed) and [roots] (the package files BUILD.dawn, one goroutine each, see
+    loadPackage).
     No proofs in this file. *)
 From Coq Require Import List Arith Bool.
 Import ListNotations.
@@ -22,7 +25,7 @@ Definition m0 : mstate := mkM None false true 0.
 
 Inductive phase :=
 | PStart (r : label)                 (* package goroutine about to call proj.loadModule(nil, r) *)
-| PExec                              (* top frame runs its body: next load() statement, or done(data, nil) *)
+| PExec                              (* top frame runs its body: next load() statement, or done(data, own error) *)
 | PFail                              (* a load() of the top frame failed: ExecFile returns the error, done(nil, err) next *)
 | PMissEdge (t : label)              (* registry miss on t (now registered): waiter.setLoading(t), then t.load() *)
 | PHitEdge (t : label)               (* registry hit on t: waiter.setLoading(t), then t.wait(waiter) *)
@@ -80,6 +83,7 @@ Definition after_pop (rest : list frame) (ok : bool) : phase :=
 
 Section Loader.
 Variable loads : label -> list label.
+Variable bad : label -> bool.    (* the module's own code fails (after the load() statements listed in [loads]) *)
 
 Definition init (roots : list label) : state :=
   mkS [] (fun _ => m0)
@@ -96,7 +100,9 @@ Definition step_ev (s : state) (tid : nat) : option (state * event) :=
       then Some (set_thr s tid (mkT [] (PWait r)), EHit None r)
       else Some (set_thr (add_exec (add_reg s r) r) tid (mkT [(r, loads r)] PExec), EMiss None r)
   | PExec, (m, []) :: rest =>
-      Some (set_thr (set_done s m true) tid (mkT rest (after_pop rest true)), EDone m true)
+      (* ExecFile returned: done(data, err) with err = nil unless the module's own code failed *)
+      let ok := negb (bad m) in
+      Some (set_thr (set_done s m ok) tid (mkT rest (after_pop rest ok)), EDone m ok)
   | PExec, (m, t :: ls) :: rest =>
       if memb t (registry s)
       then Some (set_thr s tid (mkT ((m, ls) :: rest) (PHitEdge t)), EHit (Some m) t)
